@@ -68,8 +68,10 @@ def check(run):
                              # state shared between the sending threads
         C03.argcheck(R)      # only immutable bytes / text are accepted ...
         C03.private(R)       # ... and what is masked in place is a private copy: a buffer two senders share is not scrambled
-    from . import C06
+    from . import C06, C08
     with R.as_rule('C11.wireorder'):
+        C06.tail(R)          # compress() hands out a new bytes object per call (slice of the concatenation), not a shared buffer
+        C08.server(R)        # the echo of a server Close is written after Closing was yielded and the closing state follows it
         C06.wiring(R)        # the shared deflate context is configured as negotiated (reset flags / windows not crossed)
     single(R)
     no_self_deadlock(R, 'C11.single')
